@@ -97,6 +97,10 @@ func RunOracle(one func(caseSeed int64, extra []string) (descJSON, class, msg st
 	stats := map[string]int{}
 	for k := 0; k < count; k++ {
 		cs := seed*1000003 + int64(k)
+		if v := os.Getenv("HV_CASE_SEED"); v != "" {
+			fmt.Sscan(v, &cs) // replay of one recorded case
+		}
+		Current(fmt.Sprintf("%d", cs))
 		desc, class, msg, tags := one(cs, extra)
 		fmt.Fprintf(ops, "case %d %s\n", cs, desc)
 		for _, t := range tags {
@@ -122,4 +126,15 @@ func RunOracle(one func(caseSeed int64, extra []string) (descJSON, class, msg st
 		}
 	}
 	Stats(stats)
+}
+
+// Current records the case that is about to run, so that a crash, hang or out-of-memory kill of the real code
+// can be attributed to its input by bin/check.
+func Current(desc string) {
+	f, err := os.Create(os.Args[4] + ".current")
+	if err != nil {
+		return
+	}
+	fmt.Fprintln(f, desc)
+	f.Close()
 }
